@@ -116,3 +116,75 @@ Section WithH.
     exists body1, start1, body2, start2, ad1, ad2, h, sz. repeat split; assumption.
   Qed.
 End WithH.
+
+(* ---------- which octets of a received message are authenticated ---------- *)
+
+Lemma nth_error_firstn_lt : forall (A : Type) (l : list A) n p, (p < n)%nat -> nth_error (firstn n l) p = nth_error l p.
+Proof.
+  intros A l. induction l as [|x l IH]; intros n p L.
+  - rewrite firstn_nil. reflexivity.
+  - destruct n; [lia|]. destruct p; [reflexivity|]. cbn. apply IH. lia.
+Qed.
+
+Lemma nth_error_skipn_add : forall (A : Type) (l : list A) n p, nth_error (skipn n l) p = nth_error l (n + p).
+Proof.
+  intros A l. induction l as [|x l IH]; intros n p.
+  - rewrite skipn_nil. destruct p, n; reflexivity.
+  - destruct n; [reflexivity|]. cbn. apply IH.
+Qed.
+
+(* octet p of the received wire, 2 <= p < 10 or 12 <= p < tsig_start, is octet p of the message
+   that RFC 8945 4.3.2 digests (octets 0-1 are replaced by the original id, 10-11 by ARCOUNT-1) *)
+Lemma received_message_octet : forall (wire : bytes) ad start p,
+  (10 <= length wire)%nat ->
+  ((p < 10)%nat \/ (12 <= p < start)%nat) ->
+  nth_error (rfc_received_message wire ad start) p = nth_error wire p.
+Proof.
+  intros wire ad start p L [P|P]; unfold rfc_received_message.
+  - rewrite nth_error_app1 by (rewrite firstn_length_le; lia).
+    apply nth_error_firstn_lt. exact P.
+  - rewrite nth_error_app2 by (rewrite firstn_length_le; lia).
+    rewrite firstn_length_le by lia.
+    rewrite nth_error_app2 by (rewrite be_length; lia). rewrite be_length.
+    rewrite nth_error_firstn_lt by lia. rewrite nth_error_skipn_add. f_equal. lia.
+Qed.
+
+(* hence: two received messages (same cut point) that differ in such an octet have different
+   authenticated content, whatever the rest is *)
+Lemma altered_octet_changes_authenticated_lemma :
+  forall (w1 w2 : bytes) ad1 ad2 start rd1 rd2 p,
+    (10 <= length w1)%nat -> (10 <= length w2)%nat ->
+    ((2 <= p < 10)%nat \/ (12 <= p < start)%nat) ->
+    nth_error w1 p <> nth_error w2 p ->
+    authenticated w1 ad1 start rd1 <> authenticated w2 ad2 start rd2.
+Proof.
+  intros w1 w2 ad1 ad2 start rd1 rd2 p L1 L2 P D E. unfold authenticated in E.
+  assert (S : skipn 2 (rfc_received_message w1 ad1 start) = skipn 2 (rfc_received_message w2 ad2 start))
+    by congruence.
+  apply D.
+  rewrite <- (received_message_octet w1 ad1 start p L1) by (destruct P; [left|right]; lia).
+  rewrite <- (received_message_octet w2 ad2 start p L2) by (destruct P; [left|right]; lia).
+  replace p with (2 + (p - 2))%nat by (destruct P; lia).
+  rewrite <- !nth_error_skipn_add. now rewrite S.
+Qed.
+
+(* ARCOUNT is authenticated too (as ARCOUNT - 1) *)
+Lemma altered_arcount_changes_authenticated_lemma :
+  forall (w1 w2 : bytes) ad1 ad2 start1 start2 rd1 rd2,
+    (10 <= length w1)%nat -> (10 <= length w2)%nat ->
+    0 < ad1 < 65536 -> 0 < ad2 < 65536 -> ad1 <> ad2 ->
+    authenticated w1 ad1 start1 rd1 <> authenticated w2 ad2 start2 rd2.
+Proof.
+  intros w1 w2 ad1 ad2 start1 start2 rd1 rd2 L1 L2 A1 A2 D E. unfold authenticated in E.
+  assert (S : skipn 2 (rfc_received_message w1 ad1 start1) = skipn 2 (rfc_received_message w2 ad2 start2))
+    by congruence.
+  unfold rfc_received_message in S.
+  assert (F : forall (w : bytes) (x : octets), (10 <= length w)%nat ->
+              skipn 2 (firstn 10 w ++ x) = skipn 2 (firstn 10 w) ++ x).
+  { intros w x Lw. rewrite skipn_app. rewrite firstn_length_le by lia. reflexivity. }
+  rewrite !F in S by assumption.
+  apply app_inv_len in S as [_ S].
+  2:{ rewrite !skipn_length, !firstn_length_le by lia. reflexivity. }
+  apply app_inv_len in S as [S _]; [|now rewrite !be_length].
+  apply be_inj in S; [lia| |]; change (256 ^ Z.of_nat 2) with 65536; lia.
+Qed.
